@@ -842,7 +842,10 @@ pub fn property_c01() -> Property {
     Property {
         id: "C01",
         level: "exploration",
-        parts: vec![Box::new(PropPart(C01Plan))],
+        parts: vec![
+            Box::new(PropPart(C01Plan)),
+            Box::new(PropPart(crate::props::e2e::C01Full)),
+        ],
     }
 }
 pub fn property_c02() -> Property {
@@ -856,7 +859,10 @@ pub fn property_c03() -> Property {
     Property {
         id: "C03",
         level: "exploration",
-        parts: vec![Box::new(PropPart(C03Plan))],
+        parts: vec![
+            Box::new(PropPart(C03Plan)),
+            Box::new(PropPart(crate::props::e2e::C03Full)),
+        ],
     }
 }
 
